@@ -197,9 +197,8 @@ def decide_seq(eng, leaves, scenario, covers=()):
                 continue
             extra = None if ob.cond is None else z3.Not(ob.cond)
             s = eng.solver
+            eng._sync(list(ob.guard))
             s.push()
-            for c in ob.guard:
-                s.add(c)
             if extra is not None:
                 s.add(extra)
             r = s.check()
